@@ -29,7 +29,8 @@ def h_stage(ctx, case):
     RS.check_stats(ctx, inp, res, env)
     import os
     left = [n for n in os.listdir(env.dir)
-            if not n.endswith('.h5ad') and n != 'stats.h5']
+            if not n.endswith('.h5ad') and n != 'stats.h5'
+            and not (case.get('same_basename') and n.startswith('batch'))]
     ctx.check(left == [], 'nothing left in the scratch directory')
     return 'ok'
 
@@ -209,6 +210,8 @@ HARNESSES = [
                     'max_proc': 1, 'perm_genes': True},
                    {'files': 2, 'cells': 1, 'genes': 1, 'clusters': 1,
                     'max_proc': 2, 'copy_data_over': True},
+                   {'files': 2, 'cells': 1, 'genes': 1, 'clusters': 2,
+                    'max_proc': 1, 'same_basename': True},
                    {'cells': 2, 'genes': 2, 'clusters': 1,
                     'normalization': 'raw', 'max_proc': 2},
                    {'cells': 2, 'genes': 1, 'clusters': 2, 'enc': 'csr',
